@@ -64,6 +64,17 @@ theorem return_implies_all_sockets_closed (ae : Bool) (s : St) (h : Reachable ae
   obtain ⟨i, hi⟩ := List.getElem?_of_mem hc
   exact ((invC_reachable h i c hi).done (Or.inr (by simp [hr, Phase.serving]))).1
 
+/-- a connection that is no longer the current one (the client has dialled again since): its quit channel has been
+closed and its socket has been closed by the client, so its writer goroutine — if it still runs — has its stop
+signal pending (`writerSeesQuit` is enabled) in every reachable state; no execution leaves the writer of an earlier
+connection running without having been told to stop (both variants) -/
+theorem earlier_connection_writer_told_to_quit (ae : Bool) (s : St) (h : Reachable ae s) (i : Nat) (c : Conn)
+    (hi : i > 0) (hc : s.conns[i]? = some c) :
+    c.quit = true ∧ c.closed = true ∧ (c.w = .running → (step ae s (.writerSeesQuit i)).isSome = true) := by
+  have g := (invC_reachable h i c hc).done (Or.inl hi)
+  refine ⟨g.2, g.1, fun hw => ?_⟩
+  simp [step, hc, hw, g.2]
+
 /-- the wait-group counter never goes negative (no `sync: negative WaitGroup counter` panic), both variants -/
 theorem wg_nonneg (ae : Bool) (s : St) (h : Reachable ae s) : 0 ≤ s.wg := by
   have := invW_reachable h
